@@ -292,6 +292,33 @@ def roundtrip(i: Optional[int], b: Optional[bool], s: Optional[str], l: List[int
             and ((back.sub is None) if not has_sub else (back.sub is not None and back.sub.n == n and back.sub.t is None)))
 
 
+def cast_types(xn: Optional[int], xz: Optional[int], yn: Optional[int], ow: bool) -> bool:
+    """
+    post: _
+    """
+    # merging / casting across an inheritance chain of partial classes: the class asked for is the
+    # class obtained (Child.Partial.merge(parent_partial, child_partial) is a Child.Partial)
+    a = mk_inner(PARTIAL, xn)            # Inner.Partial
+    b = mk_inner(PARTIAL_SUB, yn, xz)    # InnerSub.Partial
+    reach()
+    if PI.cast(b) is not b:              # a child partial already is a parent partial
+        return False
+    c = PIS.cast(a)
+    if not isinstance(c, PIS) or norm(c) != norm(a):
+        return False
+    try:
+        r = PIS.merge(a, b, allow_overwrite=ow)
+    except ValueError:
+        return (not ow) and xn is not None and yn is not None
+    if not isinstance(r, PIS):
+        return False
+    exp = _spec(norm(a), norm(b), ow)
+    if exp[0] != "ok" or norm(r) != exp[1]:
+        return False
+    back = r.from_partial()
+    return type(back) is InnerSub and back.z == xz
+
+
 def shapes(dummy: bool) -> bool:
     """
     post: _
